@@ -76,6 +76,7 @@ def replay_concrete(hmod, cfg, inputs, wall_s=60, complete=False):
     res["failures"] = [list(f) for f in conc.failures]
     res["observations"] = getattr(conc, "obs", [])
     res["n_checks"] = conc.n_checks
+    res["ended_by_exception"] = conc.ended_by_exception
     return res
 
 
@@ -252,6 +253,19 @@ def _worker(hname, cfgs, opts, tasks, results, widx, stop_flags=None, path_count
                             else:
                                 st.validation_fail.append({"why": why, "inputs": inputs})
                             shims.set_ctx(cx)
+                    # a path that ends in an exception of the code under test is C01's business — but only if the
+                    # real code raises too: an exception that only the proxies provoke would silently end the
+                    # exploration here, so the same inputs are replayed on the unshimmed code
+                    if status == "done" and cx.ended_by_exception and not cx.own_exceptions and st.counters.get("exception_paths_replayed", 0) < 8:
+                        st.counters["exception_paths_replayed"] = st.counters.get("exception_paths_replayed", 0) + 1
+                        m = E.any_model()
+                        if m is not None:
+                            res = replay_concrete(hmod, cfg, cx._inputs_from_model(m), complete=True)
+                            shims.set_ctx(cx)
+                            if res["status"] == "ok" and not res["ended_by_exception"] and not res.get("truncated"):
+                                st.counters["harness_error_paths"] = st.counters.get("harness_error_paths", 0) + 1
+                                if len(st.harness_errors) < 3:
+                                    st.harness_errors.append("exception raised only under symbolic execution (unsupported operation on proxies): %s" % getattr(cx, "exc_info", "?"))
                     if len(st.samples) < 2 and status == "done":
                         st.samples.append({
                             "config": cfg.get("name"),
